@@ -765,8 +765,9 @@ def canon_nodes(nodes, colors=True, keep_all_comments=False):
             if keep_all_comments or nd["text"].startswith("/*!"):
                 out.append(("comment", re.sub(r"\s+", " ", nd["text"])))
         elif t == "decl":
-            custom = nd["name"].startswith("--")
-            out.append(("decl", nd["name"], nd["value"].strip() if custom else canon_text(nd["value"], colors)))
+            # (a name starting with `--` is not necessarily a declared custom property: `#{--p}: 0.75` is an
+            # ordinary declaration whose number is spelled per style, so these values are canonicalised too)
+            out.append(("decl", nd["name"], canon_text(nd["value"], colors)))
         elif t == "stmt":
             if nd["text"].lower().startswith("@charset"):
                 continue
